@@ -78,12 +78,13 @@ class Worker:
                 pass
 
 
-def run_batch(pid, tier, base, indices, nworkers, timeout, want_plan_upto=4, deadline=None):
-    """Execute runs `indices` on a pool of workers.  Run i is always executed under hash class i % K."""
+def run_batch(pid, tier, base, indices, nworkers, timeout, want_plan_upto=4, deadline=None, class_shift=0):
+    """Execute runs `indices` on a pool of workers.  Run i is always executed under hash class i % K
+    (class_shift=1: deliberately under the OTHER class, for the cross-class check)."""
     K = len(env.HASH_CLASSES)
     queues = [queue.Queue() for _ in range(K)]
     for i in indices:
-        queues[env.hash_class_of(i)].put(i)
+        queues[(env.hash_class_of(i) + class_shift) % K].put(i)
     results = {}
     lock = threading.Lock()
     skipped = []
@@ -173,6 +174,15 @@ def main(argv=None):
             if again.get(i, {}).get("digest") != results[i].get("digest") or again.get(i, {}).get("status") != "ok":
                 nondet.append((i, results[i].get("digest"), again.get(i, {}).get("digest"), again.get(i, {}).get("error")))
 
+    # --- cross-class check: results declared hash-seed independent (xdigest) must be bit-identical under the other class
+    nx = budget.get("xclass", 0)
+    xsample = [i for i in ok_idx if results[i].get("xdigest")][:: max(1, len(ok_idx) // max(1, nx))][:nx] if nx else []
+    if xsample:
+        other, _ = run_batch(pid, tier, base, xsample, min(args.workers, max(2, len(xsample))), timeout, want_plan_upto=0, class_shift=1)
+        for i in xsample:
+            if other.get(i, {}).get("xdigest") != results[i].get("xdigest"):
+                nondet.append((i, "xclass:" + str(results[i].get("xdigest")), "xclass:" + str(other.get(i, {}).get("xdigest")), other.get(i, {}).get("error")))
+
     errors = [r for r in results.values() if r.get("status") == "error"]
     viols = [r for r in results.values() if r.get("status") == "violation"]
 
@@ -255,7 +265,7 @@ def main(argv=None):
     wall = time.time() - t0
     if not args.no_evidence:
         ev = evidence_mod.build(pid, tier, base, reg, results, stats, evaluations, nontrivial_keys, digests, samples,
-                                nsteps, wall, len(viols), len(known_lines), len(errors), len(nondet), len(sample),
+                                nsteps, wall, len(viols), len(known_lines), len(errors), len(nondet), len(sample) + len(xsample),
                                 args.workers, COMPONENTS)
         ok = evidence_mod.write(pid, ev)
         if not ok and exit_code == 0:
